@@ -81,6 +81,13 @@ def check(run):
                 for op in ("Sort", "SortDesc"):
                     plans.append([dict(op=op, s=sv, t=0, d=10, ty=ty)])
                 plans.append([dict(op="BinarySearch", s=sorted(sv), t=run.rng.choice([0, 1, 128, 255, 77]), d=10, ty=ty)])
+    # strings that differ only in trailing NUL bytes (what a packed-prefix comparison cannot tell apart), 16 and more of them
+    for n in ((5, 16, 17, 40) if run.quick() else (5, 15, 16, 17, 33, 64, 200)):
+        for rep in range(3):
+            sv = [run.rng.randint(0, 19) for _ in range(n)]
+            for op in ("Sort", "SortDesc"):
+                plans.append([dict(op=op, s=sv, t=0, d=10, ty="nulstr")])
+            plans.append([dict(op="BinarySearch", s=sorted(sv), t=run.rng.randint(0, 19), d=10, ty="nulstr")])
     # thousands of elements, given by a formula and checked through a lossless run encoding of the result
     for n in ((2049, 2051, 4099) if run.quick() else (1025, 2048, 2049, 2050, 2051, 4099, 8191, 10007, 20001)):
         for (a, b, m) in ((3, 1, 7), (1, 0, 3)) if run.quick() else ((3, 1, 7), (1, 0, 3), (5, 2, 11), (2, 0, 5)):
